@@ -66,11 +66,15 @@ def r2_preamble(ctx):
     ctx.expect_count('R2', 'signature preamble loop', len(loops), 1)
     for lp in loops:
         nd = lp.target.id
-        inner = [n for n in ast.walk(lp) if isinstance(n, ast.For) and src(n.iter) == f'{nd}.last_signature_nodes.nodes.values()']
-        ok = len(inner) == 1
+        want_iter = f'{nd}.last_signature_nodes.nodes.values()'
+        inner = [(n, n.target, n) for n in ast.walk(lp) if isinstance(n, ast.For) and src(n.iter) == want_iter]
+        for n in ast.walk(lp):
+            if isinstance(n, (ast.ListComp, ast.GeneratorExp)) and len(n.generators) == 1 and src(n.generators[0].iter) == want_iter:
+                inner.append((n, n.generators[0].target, n))
+        ok = len(inner) == 1 and isinstance(inner[0][1], ast.Name)
         if ok:
-            sv = inner[0].target.id
-            ok = any(isinstance(c, ast.Call) and src(c) == f'self.export_token({sv}, options)' for c in ast.walk(inner[0]))
+            sv = inner[0][1].id
+            ok = any(isinstance(c, ast.Call) and src(c) == f'self.export_token({sv}, options)' for c in ast.walk(inner[0][2]))
         ctx.check(ok, 'R2', f'{es.module.relpath}:{lp.lineno}', es.qualname, 'preamble-reads-signature-context',
                   'the excerpt preamble exports, with export_token, the signature nodes recorded in the context of each node of from_stage')
 
@@ -82,39 +86,41 @@ def r3_terminator(ctx):
     for gd in guards_:
         at = f'{es.module.relpath}:{gd.lineno}'
         fm = G._formula(gd.test)
-        naming = {'options.to_measure is None': 'none', '0 < len(rows)': 'rows', "'*-' == rows[len(rows) - 1][0]": 'term',
-                  "'*-' == rows[-1][0]": 'term'}
+        naming = {'options.to_measure is None': 'none', 'nonempty(rows)': 'rows', "'*-' == rows[-1][0]": 'term'}
         eq, cex, unknown = G.compare(fm, lambda v: (not v['none']) and v['rows'] and not v['term'], naming)
         ctx.check(eq and not unknown, 'R3', at, es.qualname, 'terminator-guard',
                   'a terminator row is synthesised iff to_measure is given, there are rows and the last row is not a terminator row',
                   f'terminator guard is `{G.show(fm)[:140]}`')
-        sps = symex.sym_paths(gd.body)
+        sps = symex.sym_paths(gd.body, fi=es)
         okb = len(sps) >= 1
+        counts = []
         for sp in sps:
-            apps = [e for e in sp.events if e.kind == 'expr' and isinstance(e.expr, ast.Call) and src(e.expr.func) == 'rows.append']
-            okb = okb and len(apps) == 1
-        loops = [n for n in ast.walk(gd) if isinstance(n, ast.For) and isinstance(n.iter, ast.Call) and F.is_name(n.iter.func, 'range')]
-        okr = len(loops) == 1 and any(isinstance(c, ast.Call) and src(c) == "row.append('*-')" for c in ast.walk(loops[0]))
-        ctx.check(okb and okr, 'R3', at, es.qualname, 'one-terminator-row', 'exactly one row consisting of *- cells is appended')
-        if okr:
-            env = {}
-            for s in gd.body:
-                if isinstance(s, ast.Assign) and isinstance(s.targets[0], ast.Name):
-                    env[s.targets[0].id] = G.substitute(s.value, env)
-            cnt = G.substitute(loops[0].iter.args[0], env)
-
+            apps = [e.expr for e in sp.events if e.kind == 'expr' and isinstance(e.expr, ast.Call) and src(e.expr.func) in ('rows.append', 'rows.insert', 'rows.extend')]
+            okb = okb and len(apps) == 1 and src(apps[0].func) == 'rows.append' and len(apps[0].args) == 1
+            if okb:
+                v = apps[0].args[0]
+                # a row of *- cells: ['*-'] * n
+                if isinstance(v, ast.BinOp) and isinstance(v.op, ast.Mult):
+                    lst, cnt = (v.left, v.right) if isinstance(v.left, ast.List) else (v.right, v.left)
+                    if isinstance(lst, ast.List) and len(lst.elts) == 1 and isinstance(lst.elts[0], ast.Constant) and lst.elts[0].value == '*-':
+                        counts.append(cnt)
+                        continue
+                okb = False
+        ctx.check(okb and bool(counts), 'R3', at, es.qualname, 'one-terminator-row', 'exactly one row consisting of *- cells is appended')
+        for cnt in counts:
             def term(node):
                 s_ = src(node)
-                if s_.startswith('sum(') and "'*^'" in s_:
+                if s_ == "rows[-1].count('*^')":
                     return 'splits'
-                if s_.startswith('sum(') and "'*v'" in s_:
+                if s_ == "rows[-1].count('*v')":
                     return 'joins'
-                if s_.startswith('len('):
+                if s_ == 'len(rows[-1])':
                     return 'cells'
                 return None
             try:
                 a = affine(cnt, None, term)
-                ok = a.terms.get('cells') == 1 and a.terms.get('splits') == 1 and a.terms.get('joins', 0) <= 0 and a.const == 0
+                ok = a.terms.get('cells') == 1 and a.terms.get('splits') == 1 and a.terms.get('joins', 0) <= 0 and a.const == 0 \
+                    and set(a.terms) <= {'cells', 'splits', 'joins'}
                 ctx.check(ok, 'R3', at, es.qualname, 'terminator-row-length',
                           f'terminator row length = cells + splits - joins-ish (affine form {a.key()})',
                           f'terminator row length is `{a.key()}`')
@@ -248,13 +254,22 @@ def r7_signature_search(ctx):
     ctx.check(o_note == {'False'}, 'R7', f.loc, f.qualname, 'first-note-ends-search', 'the first note ends the search: False',
               f'a note -> {sorted(o_note)}: the search runs past the first note')
     ctx.check(o_end <= {'False', 'None'}, 'R7', f.loc, f.qualname, 'no-stage-left', 'no stage left: not cancelled', f'no stage left -> {sorted(o_end)}')
-    loops = [n for n in walk_local(f.node) if isinstance(n, ast.For) and src(n.iter) == f'{nd}.children']
-    okl = len(loops) == 1
-    if okl:
-        lp = loops[0]
-        ch = lp.target.id
-        calls = [c for c in ast.walk(lp) if isinstance(c, ast.Call) and src(c.func) == 'self.is_signature_cancelled']
-        okl = len(calls) == 1 and [src(a) for a in calls[0].args] == [sig, ch, f'{fr} + 1', to] and len(lp.body) == 1 and isinstance(lp.body[0], ast.If) \
-            and lp.body[0].test is calls[0] and src(lp.body[0].body[0]) == 'return True'
-    ctx.check(okl, 'R7', f.loc, f.qualname, 'children-searched', 'every child is searched one stage further; the first hit returns True',
-              'the recursion does not search every child with (from + 1, to)')
+    # no note, another class, stages left: True iff some child, searched one stage further, restates the signature
+    want = f'any(self.is_signature_cancelled({sig}, _v0, {fr} + 1, {to}) for _v0 in {nd}.children)'
+    okl = False
+    seen = []
+    for sp in sps:
+        fm = sp.condition()
+        ats = G.atoms_of(fm)
+        if not all(a in (same, note, more) for a in ats):
+            continue
+        if not G.evaluate(fm, {a: {same: False, note: False, more: True}[a] for a in ats}):
+            continue
+        if sp.end != 'return' or sp.value is None:
+            seen.append(sp.end)
+            continue
+        vf = G._formula(sp.value)
+        seen.append(G.show(vf))
+        okl = vf == ('atom', want)
+    ctx.check(okl and len(seen) == 1, 'R7', f.loc, f.qualname, 'children-searched', 'every child is searched one stage further; the first hit returns True',
+              f'the recursion does not search every child with (from + 1, to): {seen[:2]}')
